@@ -31,7 +31,26 @@ var c02 = newChk("C02", "roundtrip",
 		if v != refv6.Accept {
 			return nil // not a canonical case (only possible for hand-edited replay files)
 		}
-		lib := gen.ToLibMsg(t)
+		// half of the cases build the value in another representation that means the same (see gen.ToLibMsgRepr):
+		// nil for zero-length fields, spare capacity behind byte fields, generic options where typed ones exist, a
+		// nil address in a ::/n prefix — the encoding is the same RFC layout
+		repr := 0
+		if h := obs.Hash64(c); h%2 == 1 {
+			repr = int(h>>1) % 16
+		}
+		lib := gen.ToLibMsgRepr(t, repr)
+		if repr != 0 {
+			rec.Class(fmt.Sprintf("representation mode %d", repr))
+		}
+		if len(c)%2 == 1 {
+			// the unhappy path first: every name value of the built message is asked to decode bytes it refuses; a
+			// value that refused and still holds its names encodes them as before
+			if kept, changed := pokeNames(lib); changed > 0 {
+				lib = gen.ToLibMsgRepr(t, repr)
+			} else if kept > 0 {
+				rec.Class("name values that refused another input before encoding")
+			}
+		}
 		enc := lib.ToBytes()
 		want := refv6.EncodeMsg(t)
 		// history: another message (a relay chain around this one with vendor, IA and name options of its own) is
@@ -81,6 +100,14 @@ var c02 = newChk("C02", "roundtrip",
 		// second generation: the decoded value re-encodes to the same bytes
 		if enc2 := dec.ToBytes(); !bytes.Equal(enc2, enc) {
 			return obs.Failf("C02/reencode", "same bytes", "differs at byte %d", firstDiff(enc2, enc))
+		}
+		// the decoded message's name values refuse another input, then it re-encodes to the same bytes
+		if kept, changed := pokeNames(dec); changed == 0 && kept > 0 {
+			if enc2 := dec.ToBytes(); !bytes.Equal(enc2, enc) {
+				return obs.Failf("C02/reencode-after-refused-input", "same bytes", "differs at byte %d", firstDiff(enc2, enc))
+			}
+		} else if changed > 0 {
+			dec, _ = dhcpv6.FromBytes(append([]byte{}, enc...))
 		}
 		// (d) a decoded message whose domain names are edited in place (letter case only) encodes the edited names
 		if n := flipNames(dec); n > 0 {
@@ -151,16 +178,38 @@ func TestC02_Rapid(t *testing.T) {
 // (search list, FQDN, NTP server FQDN), in place, recursively; it returns how many names changed.
 func flipNames(d dhcpv6.DHCPv6) int {
 	n := 0
-	var opts func(o dhcpv6.Options)
-	labels := func(l *rfc1035label.Labels) {
-		if l == nil {
-			return
-		}
+	eachLabels(d, func(l *rfc1035label.Labels) {
 		for i, s := range l.Labels {
 			if f := flipCase(s); f != s {
 				l.Labels[i] = f
 				n++
 			}
+		}
+	})
+	return n
+}
+
+// pokeNames asks every domain-name value inside the message to decode bytes it must refuse (the unhappy path of a
+// long-lived value); it returns how many refused and still hold the names they held before.
+func pokeNames(d dhcpv6.DHCPv6) (kept, changed int) {
+	eachLabels(d, func(l *rfc1035label.Labels) {
+		before := append([]string{}, l.Labels...)
+		err := l.FromBytes([]byte{3, 'b', 'a', 'd', 0xC0, 0xFF})
+		if err != nil && namesEq(before, l.Labels) {
+			kept++
+		} else {
+			changed++
+		}
+	})
+	return
+}
+
+// eachLabels calls fn for every domain-name value of the message, at every nesting level.
+func eachLabels(d dhcpv6.DHCPv6, fn func(l *rfc1035label.Labels)) {
+	var opts func(o dhcpv6.Options)
+	labels := func(l *rfc1035label.Labels) {
+		if l != nil {
+			fn(l)
 		}
 	}
 	opts = func(o dhcpv6.Options) {
@@ -195,7 +244,7 @@ func flipNames(d dhcpv6.DHCPv6) int {
 				case dhcpv6.OptionRelayMsg:
 					if f := reflect.ValueOf(x).Elem().FieldByName("Msg"); f.IsValid() {
 						if inner, ok := f.Interface().(dhcpv6.DHCPv6); ok && inner != nil {
-							n += flipNames(inner)
+							eachLabels(inner, fn)
 						}
 					}
 				}
@@ -208,7 +257,6 @@ func flipNames(d dhcpv6.DHCPv6) int {
 	case *dhcpv6.RelayMessage:
 		opts(m.Options.Options)
 	}
-	return n
 }
 
 // flipTreeNames applies the same edit to a reference tree.
